@@ -113,9 +113,60 @@ def r1_no_consumer_discards(chk):
         r.require(cfg, floors.get(cfg, 2), "by-value matches over AppAction")
 
 
+def r3_phase_handover_drains(chk):
+    from rules import c06
+    from vlib import mir
+    r = chk.rule("R3", "a phase hand-over drains the bytes that arrived with the last handshake bytes", "T4 must-pass-through",
+                 "after every forward assignment self.phase = P (P dispatched by on_network_bytes to handler h_P) every path to the function's return passes through a call of h_P "
+                 "or through the edge network_read_accumulator.is_empty() == true; otherwise frames that share a read with the end of the handshake wait for the next read (which may never come)")
+    for cfg, prog in chk.configs():
+        disp = prog.body("protocol::zmtp::engine::ZmtpEngine::on_network_bytes")
+        adt = prog.facts.adts.get(c06.PHASE_ADT)
+        if disp is None or adt is None:
+            r.bad(cfg, "anchor|on_network_bytes / ZmtpPhase", "core/src/protocol/zmtp/engine.rs", "dispatcher or phase enum not found")
+            continue
+        names = [v["name"] for v in adt["variants"]]
+        table = {}
+        for c in disp.calls:
+            if not c.matches(r"engine::ZmtpEngine::process_\w+$"):
+                continue
+            for g in disp.guards(c.blk, select_aware=False):
+                if g.atom[0] == "discr" and g.atom[1].endswith(".phase") and isinstance(g.label, int) and g.label < len(names):
+                    table[names[g.label]] = c.callee_stripped if hasattr(c, "callee_stripped") else mir.strip_generics(c.callee)
+        if len(table) < 4:
+            r.bad(cfg, "anchor|phase dispatch table", where(disp, 0), "on_network_bytes dispatches only %s" % sorted(table))
+            continue
+        n = 0
+        for body in c06.engine_bodies(prog):
+            if body.kind not in ("fn", "assoc_fn"):
+                continue
+            for b, i, var in c06.phase_assignments(body):
+                if var not in table or var == "Greeting":
+                    continue
+                n += 1
+                h = table[var]
+                key = "%s|phase=%s hands the remaining bytes to %s" % (short(body.path), var, h.rsplit("::", 1)[-1])
+                avoid_blocks = set(c.blk for c in body.calls if mir.strip_generics(c.callee) == h)
+                avoid_edges = []
+                for s in range(body.n):
+                    if body.term(s)["k"] != "switch":
+                        continue
+                    a, pol = body.switch_atom(s)
+                    if a[0] == "call" and a[1].name == "is_empty" and "network_read_accumulator" in (a[1].recv() or ""):
+                        avoid_edges.append((s, body.bool_edge_label(s, pol)))
+                reach = body.reachable([b], avoid_blocks=avoid_blocks, avoid_edges=avoid_edges)
+                rets = [x for x in body.returns() if x in reach]
+                if rets:
+                    r.bad(cfg, key, where(body, b), "after self.phase = %s the function can return without calling %s and without having seen the accumulator empty: bytes of the next phase that arrived in the same read stay unprocessed until another read happens" % (var, h.rsplit("::", 1)[-1]))
+                else:
+                    r.ok(cfg, key, where(body, b), "every path to return calls the handler or takes accumulator.is_empty()")
+        r.require(cfg, 6, "forward phase assignments")
+
+
 def run(chk):
     chk.undecided = ["that decoding itself is independent of stream cuts (value-level; see C03)"]
     r1_no_consumer_discards(chk)
+    r3_phase_handover_drains(chk)
     from rules.common import rule_gate_closes_after_stage
     r2 = chk.rule("R2", "a greeting stage closes its re-entry gate only when the stage is finished", "T3 region + T4",
                   "in the ZMTP engine's byte-driven handlers, inside a region guarded by a gate on self.<field>, no assignment of that field is followed (within the region) by a need-more-bytes early return; otherwise the outcome depends on where a read boundary falls")
